@@ -723,6 +723,12 @@ class NpCalls:
         return AV(ty='tuple', elts=[AV(ty='ndarray', dtype='int', deps=d, mono=Mono.atom('count'), hist_of=x, symlen=sl, axes=('k',)),
                                     bins if bins is not None else AV(ty='ndarray')], deps=d)
 
+    def np_histogramdd(self, interp, st, args, kwargs, node):
+        d = self.deps_of(args, kwargs)
+        x = as_array(args[0]) if args else TOP
+        interp.emit('histogramdd', node, x=x, bins=self.arg(args, kwargs, 1, 'bins'), range=kwargs.get('range') or (args[2] if len(args) > 2 else None))
+        return AV(ty='tuple', elts=[AV(ty='ndarray', deps=d, store='fresh', mono=Mono.atom('count'), hist_of=x), AV(ty='list', elem=AV(ty='ndarray'))], deps=d)
+
     def np_bincount(self, interp, st, args, kwargs, node):
         d = self.deps_of(args, kwargs)
         ml = kwargs.get('minlength')
